@@ -102,6 +102,9 @@ func RunOne(t *testing.T, req RunReq) (res RunRes) {
 		plan = sc.Gen(root.Sub("plan"), req.Tier, req.Variant)
 		plan.Prop = req.Prop
 	}
+	if v := plan.Param("max_steps", 0); v > 0 {
+		cfg.MaxSteps = int(v)
+	}
 	if req.Dump != "" {
 		rf := ReplayFile{Prop: req.Prop, Seed: req.Seed, Tier: req.Tier, Variant: req.Variant, Cfg: cfg, Plan: plan}
 		b, _ := json.Marshal(rf)
